@@ -228,7 +228,7 @@ CanonField(env, log, id, p, fld) ==
             LET nz == SelectSeq(ws, LAMBDA w : w.from < w.to) IN
             IF Len(nz) = 0 THEN "tok0" ELSE "tok" \o NatStr(nz[Len(nz)].from)
        [] kind = "tokens" ->
-            IF Len(ws) = 0 THEN "[]"
+            IF Len(ws) = 0 THEN "nil"      \* never written: the slice stays nil
             ELSE LET w == ws[Len(ws)] IN
                  "[" \o JoinSeq([i \in 1..(w.to - w.from) |-> "tok" \o NatStr(w.from + i - 1)], 1, ",") \o "]"
        [] OTHER ->
